@@ -597,6 +597,11 @@ def main(rep, tier, seed):
                     function=fn_name(S, it["s"], it["d"]), profile=pname(it["mode"]),
                     disagreements=rows, case=dict(s=it["s"], d=it["d"], mode=it["mode"], vals=[r["input"] for r in rows] or it.get("vals", [])[:8]),
                     harness_line=it["line"][:400], replay="./check.py C01 --replay <this file>"), no_input=not rows)
+            # --- the same dev-profile cases through the crate built WITHOUT its std feature (cfg-gated code paths)
+            dev_items = [it for it in items if it["mode"] == 0]
+            rc0, dev_out, _ = F.run_bin_parallel(bins[0], [it["line"] for it in dev_items])
+            if len(dev_out) == len(dev_items):
+                rep.extra["no_std_build"] = F.nostd_phase(rep, "c01", dev_items, dev_out)
     times["correspondence_s"] = round(time.time() - t, 1)
     # --- crate vs i128 oracle of the specification (large sweeps); skipped when the search already ran it
     t = time.time()
@@ -615,6 +620,19 @@ def main(rep, tier, seed):
                     kind="conversion does not produce the exact power-of-two rescaling (crate vs i128 oracle; the Coq proof is about the translated model: translator fault or harness built from another tree)",
                     function=fn_name(S, s, d), profile=pname(mode), input=f["input"], tag=f["tag"], got=f["got"],
                     expected=f["expected"], case=dict(s=s, d=d, mode=mode, vals=[f["input"]])))
+        okn, logn, npath = F.nostd_build("c01")
+        if okn:
+            triples = oracle_lines(rng.fork("oracle_nostd"), tier, 0)
+            n, fails, err = run_oracle(npath, triples)
+            stats["oracle"] += n
+            stats["hist"]["oracle_no_std_build"] = n
+            for f in fails[:3]:
+                f = minimise_failure(npath, f)
+                s, d = f["pair"]
+                rep.violation(f"oracle_{s}_to_{d}_nostd", dict(
+                    kind="conversion does not produce the exact power-of-two rescaling in the build WITHOUT the std feature (crate vs i128 oracle)",
+                    function=fn_name(S, s, d), profile="dev profile, dasp_sample built with default-features = false", input=f["input"], tag=f["tag"],
+                    got=f["got"], expected=f["expected"], case=dict(s=s, d=d, mode=0, vals=[f["input"]])))
     times["oracle_s"] = round(time.time() - t, 1)
     t = time.time()
     if terr is None:
